@@ -161,6 +161,8 @@ type c30Client struct {
 	// NoSNI: the client dials the IP address and sends no server_name extension (the certificate is checked
 	// against its IP SAN)
 	NoSNI bool `json:"no_sni,omitempty"`
+	// cache: the client keeps TLS sessions between its connections, as clients do (one cache per client identity)
+	cache tls.ClientSessionCache
 }
 
 type c30Case struct {
@@ -179,6 +181,9 @@ type c30Case struct {
 	// SwapCA: after the first round the listener is stopped, CAFile is pointed at another CA through
 	// GetExportOptions/UpdateExportOptions and a new listener is started: the configured CA is now the other one
 	SwapCA bool `json:"swap_ca,omitempty"`
+	// Resume: clients holding a certificate keep a TLS session cache (one per identity) over all their connections of
+	// the case, so that later connections offer the session tickets earlier ones were given
+	Resume bool `json:"resume,omitempty"`
 }
 
 // (indices 5..8: values that name no TLS version - SSL 3.0, 1, just below TLS 1.0, just above TLS 1.3; clients only use 1..4)
@@ -187,7 +192,7 @@ var c30Versions = []uint16{0, tls.VersionTLS10, tls.VersionTLS11, tls.VersionTLS
 func genC30(t *rapid.T) c30Case {
 	c := c30Case{MinV: rapid.IntRange(0, 4).Draw(t, "min"), MaxV: rapid.IntRange(0, 4).Draw(t, "max"), ClientAuth: rapid.IntRange(0, 4).Draw(t, "auth"),
 		CA: pick(t, "ca", 0, 1, 1, 1, 2), Ciphers: rapid.IntRange(0, 3).Draw(t, "ciphers"), Rotate: rapid.IntRange(0, 2).Draw(t, "rotate") == 0,
-		PreUpdate: pick(t, "preupdate", "", "", "export", "export2", "tuning"), SwapCA: rapid.IntRange(0, 2).Draw(t, "swapca") == 0}
+		PreUpdate: pick(t, "preupdate", "", "", "export", "export2", "tuning"), SwapCA: rapid.IntRange(0, 2).Draw(t, "swapca") == 0, Resume: rapid.Bool().Draw(t, "resume")}
 	if rapid.IntRange(0, 4).Draw(t, "oddmin") == 0 {
 		c.MinV = rapid.IntRange(5, 8).Draw(t, "oddminv")
 	}
@@ -214,6 +219,7 @@ func c30Null(addr string, p *pki, cl c30Client) (ok bool, vers uint16, serial *b
 	if cl.NoSNI {
 		cfg.ServerName = "" // crypto/tls takes the host of addr (an IP literal: never sent as SNI)
 	}
+	cfg.ClientSessionCache = cl.cache
 	// GetClientCertificate forces the certificate to be presented even if the
 	// server's CertificateRequest does not list its issuer (a Go client would
 	// otherwise silently send none).
@@ -300,7 +306,12 @@ func runC30(tb stat.TB, c c30Case) {
 	what := fmt.Sprintf("server TLS config min=%#x max=%#x client_auth=%d ca=%d ciphers=%d", tc.MinVersion, tc.MaxVersion, c.ClientAuth, c.CA, c.Ciphers)
 	nt := false
 	successes := 0
+	caches := map[int]tls.ClientSessionCache{}
+	if c.Resume {
+		caches[1], caches[3] = tls.NewLRUClientSessionCache(8), tls.NewLRUClientSessionCache(8)
+	}
 	for _, cl := range c.Clients {
+		cl.cache = caches[cl.Cert]
 		ok, vers, _ := c30Null(addr, p, cl)
 		if cl.Vers < tls.VersionTLS12 || cl.Cert >= 2 {
 			nt = true
@@ -323,6 +334,16 @@ func runC30(tb stat.TB, c c30Case) {
 		}
 	}
 	if c.SwapCA && c.CA == 1 && c.ClientAuth >= int(tls.VerifyClientCertIfGiven) {
+		swapVers := uint16(tls.VersionTLS13)
+		if c30Versions[c.MaxV] != 0 && c30Versions[c.MaxV] < tls.VersionTLS13 {
+			swapVers = tls.VersionTLS12
+		}
+		if c.Resume {
+			// the client of the CA about to be retired talks to the listener once more (and is handed a session ticket)
+			if ok, _, _ := c30Null(addr, p, c30Client{Vers: swapVers, Cert: 1, cache: caches[1]}); ok {
+				stat.Label("client_of_retired_ca_holds_a_session_of_the_former_listener", 1)
+			}
+		}
 		srv.Stop()
 		ca2File := filepath.Join(dir, "ca2.pem")
 		os.WriteFile(ca2File, p.fcaPEM, 0600)
@@ -343,8 +364,8 @@ func runC30(tb stat.TB, c c30Case) {
 					if c30Versions[c.MaxV] != 0 && c30Versions[c.MaxV] < tls.VersionTLS13 {
 						vers = tls.VersionTLS12
 					}
-					okOld, _, _ := c30Null(addr, p, c30Client{Vers: vers, Cert: 1})
-					okNew, _, _ := c30Null(addr, p, c30Client{Vers: vers, Cert: 3})
+					okOld, _, _ := c30Null(addr, p, c30Client{Vers: vers, Cert: 1, cache: caches[1]})
+					okNew, _, _ := c30Null(addr, p, c30Client{Vers: vers, Cert: 3, cache: caches[3]})
 					nt = true
 					stat.Label(fmt.Sprintf("ca_swapped_new_ca_client_served_%v", okNew), 1)
 					if okOld {
